@@ -257,6 +257,7 @@ class ServerNode:
         self.log = []          # (connection index the read happened on, msg_id, message tuple)
         self.cur = None
         self.stops = 0
+        self.crashes = []      # exceptions other than the ValueError of the deserialisers
 
         class RecordingHandler(SubroutineHandler):
             def _get_message_handlers(self_h):
@@ -294,6 +295,9 @@ class ServerNode:
             self.protocols[c].dataReceived(bytes(chunk))
         except ValueError:
             raised = True
+        except Exception as e:                     # noqa: BLE001
+            raised = True
+            self.crashes.append("%s: %s" % (type(e).__name__, str(e)[:80]))
         finally:
             self.cur = None
         hs = [(i, m) for (_, i, m) in self.log[n0:]]
@@ -410,6 +414,8 @@ def client_session(c, max_calls):
             if "Received error message from backend" not in str(e):
                 raise
             out = ("HRError", ("RErr", int(re.search(r"err_code=(\d+)", str(e)).group(1))))
+        except Exception as e:                     # noqa: BLE001  anything else is a misbehaviour of the implementation
+            out = ("HRCrash", "%s: %s" % (type(e).__name__, str(e)[:80]))
         calls.append((out, list(c._shared_memory.upd[n0:])))
         if out[0] != "HRDone":
             break
@@ -421,6 +427,8 @@ def cout(o):
         return "(HRDone %s)" % cN(o[1])
     if o[0] == "HRError":
         return "(HRError %s)" % cret(o[1])
+    if o[0] == "HRCrash":
+        return "HRFuel"                            # an outcome the model never produces: the case disagrees
     return "HRStarved"
 
 
